@@ -65,6 +65,7 @@ import Restful.Lemmas.StateShape
 import Restful.Lemmas.TieImpTemplate
 import Restful.Lemmas.TieImpAllowed
 import Restful.Lemmas.TieImpDetect
+import Restful.Lemmas.TieImpFilters
 namespace Restful
 namespace Props
 open Str
@@ -766,3 +767,4 @@ end Restful.C17Holds
 -- also: Restful.TieImp.template_to_regex
 -- also: Restful.TieImp.compute_allowed_methods
 -- also: Restful.TieImp.detect_route
+-- also: Restful.TieImp.options_filter
